@@ -141,7 +141,7 @@ class DenovoMCMC:
         return GenotypeMultiTrace(np.array(genotypes), np.array(llks))
 
 
-
+class DenovoMCMC:
     def _mcmc(self, reads, read_counts, initial=None):
 
         """Run a single MCMC simulation."""
@@ -229,6 +229,8 @@ class DenovoMCMC:
             template[idx] = vals
 
             template = np.tile(template, (self.steps, self.ploidy, 1))
+
+            llks = llks + log_likelihood(reads[:, homozygous], template[0][:, homozygous], read_counts=read_counts)
 
             template[:, :, heterozygous] = genotypes
 
